@@ -987,10 +987,8 @@ pub fn run(cfg: &Cfg) -> Report {
         }
     });
     rep.merge(pre);
-    uniformity(&mut rep, seed, thorough);
-    uniformity_large(&mut rep, seed, thorough);
-    zero_sized_elements(&mut rep, seed);
-    astronomic_collections(&mut rep, seed);
+    crate::watch::guarded("gen: uniformity oracles", || { uniformity(&mut rep, seed, thorough); uniformity_large(&mut rep, seed, thorough); });
+    crate::watch::guarded("gen: collections of zero-sized elements (a handful, 2^32 and more members)", || { zero_sized_elements(&mut rep, seed); astronomic_collections(&mut rep, seed); });
     rep.exhaustive = true;
     rep.notes.push(format!("exhaustive scope: {} flavours x source lengths 0..={} x {} seeds (all agree unless listed); random: {} choice cases, {} collection cases", FLAVOURS.len(), MAX_ARR, reps, n_rand_choice, n_coll));
     rep
